@@ -646,9 +646,22 @@ class StmtMixin:
             if st.finalbody:
                 self.exec_block(st.finalbody)
 
+        names = []
+        for h in st.handlers:
+            if h.type is None:
+                names = []
+                break
+            elts = h.type.elts if isinstance(h.type, ast.Tuple) else [h.type]
+            names.extend(e.id if isinstance(e, ast.Name) else getattr(e, "attr", "?") for e in elts)
+        if not hasattr(self, "try_handlers"):
+            self.try_handlers = []
         try:
             try:
-                self.exec_block(st.body)
+                self.try_handlers.append(names if st.handlers else ["<finally-only>"])
+                try:
+                    self.exec_block(st.body)
+                finally:
+                    self.try_handlers.pop()
             except RaiseSignal as r:
                 for h in st.handlers:
                     if self.exc_matches(r, h):
